@@ -18,6 +18,8 @@ FOCI = {
     "F": "a change that only affects a PDU that is re-sent, duplicated, or arrives out of order or late (the first copy / the in-order case behaves exactly as before)",
     "G": "a change that only affects the less travelled transfer shapes: metadata-only requests, empty files, files of exactly one segment or an exact multiple of the segment length, closure requested in unacknowledged mode, a directory as destination",
     "H": "a change on an exception / refusal path: what is left behind (state, step, queued PDUs, counters, timers, files) after a protocol exception was raised, a request was refused, or a fault was declared, so that the *next* call or the next transaction misbehaves",
+    "I": "a change that only matters when the entity deals with more than one peer or more than one handler object: several remote entity configurations in one table, requests towards different destinations one after the other (or refused while another runs), two handler instances sharing a user / filestore / configuration object, a peer whose configured parameters differ from this entity's own",
+    "J": "a change in the interplay of two procedures of one transaction which each still work alone: e.g. a NAK retransmission while the EOF's ACK timer is running, a Finished PDU arriving while data is being re-sent, a cancel request while a retry procedure is active, the check timer against late data, a fault declared in a call which already queued PDUs",
     "D": "a boundary-value problem that needs an unusual but legal configuration or input (entity-id or sequence-number width, CRC flag, checksum type, file size relative to segment length or packet length, limit of 1, zero-length or maximum-length field, large-file flag)",
 }
 for pid in sys.argv[1:]:
